@@ -295,8 +295,11 @@ func negotiateFeatures(ctx context.Context, s *Session, first, ws bool, features
 	}
 
 	// If the list contains no required features and a stream restart is not
-	// required,  negotiation is complete.
-	if !list.req {
+	// required, negotiation is complete.
+	// A feature that returned a new io.ReadWriter always restarts the stream: the
+	// session is only ready once the new stream header and features list have
+	// been exchanged.
+	if !list.req && rw == nil {
 		mask |= Ready
 	}
 
